@@ -429,23 +429,28 @@ func (e *Engine) modSet(key string, con *FnContract) []string {
 
 var freshCallee func(key string) bool
 
-func freshBase(v ssa.Value) bool { return freshBaseD(v, 0) }
+func freshBase(v ssa.Value) bool { return freshBaseV(v, 0, map[*ssa.Phi]bool{}) }
 
-func freshBaseD(v ssa.Value, depth int) bool {
-	if depth > 6 {
+func freshBaseD(v ssa.Value, depth int) bool { return freshBaseV(v, depth, map[*ssa.Phi]bool{}) }
+
+// freshBaseV: phis on a cycle (loop-carried slices that are only ever re-assigned
+// from appends/allocations) are fresh when every edge from outside the cycle is.
+func freshBaseV(v ssa.Value, depth int, seen map[*ssa.Phi]bool) bool {
+	if depth > 12 {
 		return false
 	}
 	for {
 		switch x := v.(type) {
 		case *ssa.Phi:
+			if seen[x] {
+				return true
+			}
+			seen[x] = true
 			for _, e := range x.Edges {
 				if c, ok := e.(*ssa.Const); ok && c.Value == nil {
 					continue // nil
 				}
-				if e == ssa.Value(x) {
-					continue
-				}
-				if !freshBaseD(e, depth+1) {
+				if !freshBaseV(e, depth+1, seen) {
 					return false
 				}
 			}
